@@ -87,6 +87,7 @@ type interpreter struct {
 	obs          []string
 	allocBudget  int64 // -1 = off
 	stamp        int
+	ghostState   map[string]value
 
 	sched
 }
